@@ -2,7 +2,10 @@ package checks
 
 import (
 	"fmt"
+	textwire "github.com/textwire/textwire/v2"
+	"os"
 	"strings"
+	"unicode/utf8"
 
 	"verif/core"
 )
@@ -280,6 +283,65 @@ func init() {
 						if rerr != nil || rec.body.String() != want[page] {
 							c.Violation("text-through-files:response", fmt.Sprintf("Response(%s) wrote %q (error %v), want %q", page, rec.body.String(), rerr, want[page]), map[string]any{"text": t, "files": describeFiles(files)})
 						}
+					}
+				}})
+			// large files: every byte of text, up to several MiB, through the file entry points
+			sizes := []int{4095, 4096, 4097, 65535, 65536, 65537, 1<<20 - 7, 1 << 20, 1<<20 + 1, 3<<20 + 5}
+			secs = append(secs, core.Section{Name: "large-files", Exhaustive: true, N: len(sizes),
+				Run: func(c *core.Ctx, i int) {
+					n := sizes[i]
+					line := "<p>lorem ipsum dolor sit amet, é中 } {\\ @ -- </p>\n"
+					body := strings.Repeat(line, n/len(line)+1)[:n]
+					for !utf8.ValidString(body) {
+						body = body[:len(body)-1]
+					}
+					// the cut must not leave a backslash or brace that would fuse with the footer
+					body = strings.TrimRight(body, "\\{@")
+					body += strings.Repeat(".", n-len(body))
+					src := body + "{{ 1 + 1 }}FOOTER\n"
+					want := body + "2FOOTER\n"
+					c.Input(map[string]any{"text_bytes": len(body), "then": "{{ 1 + 1 }}FOOTER"})
+					c.Nontrivial(fmt.Sprint("large", n))
+					report := func(via, got string, err error) {
+						if err != nil || got != want {
+							at := 0
+							for at < len(got) && at < len(want) && got[at] == want[at] {
+								at++
+							}
+							c.Violation("large-file:"+via, fmt.Sprintf("%s of a %d-byte text gave %d bytes (error %v), want %d; first difference at byte %d", via, len(body), len(got), err, len(want), at), map[string]any{"text_bytes": len(body)})
+						}
+					}
+					var out string
+					var err error
+					c.Eval(1)
+					if !c.Guard(func() { out, err = textwire.EvaluateString(src, nil) }) {
+						report("EvaluateString", out, err)
+					}
+					files := map[string]string{"big.tw": src, "layouts/main.tw": src + "@reserve(\"r\")", "usesbig.tw": "@use(\"~main\")@insert(\"r\", \"!\")", "components/big.tw": src, "usescomp.tw": "[@component(\"~big\")]"}
+					if werr := writeFilesFresh("c05big", files); werr != nil {
+						c.Inconclusive(werr.Error())
+						return
+					}
+					defer os.RemoveAll("c05big")
+					c.Eval(1)
+					if !c.Guard(func() { out, err = textwire.EvaluateFile("c05big/big.tw", nil) }) {
+						report("EvaluateFile", out, err)
+					}
+					tpl, lerr, panicked := newTemplate(c, "c05big", ".tw")
+					if panicked {
+						return
+					}
+					if lerr != nil || tpl == nil {
+						c.Violation("large-file:load", fmt.Sprintf("a tree with %d-byte files did not load: %v", len(body), lerr), map[string]any{"text_bytes": len(body)})
+						return
+					}
+					for page, w := range map[string]string{"big": want, "usesbig": want + "!", "usescomp": "[" + want + "]"} {
+						saved := want
+						want = w
+						if o, _ := renderPage(c, tpl, page, nil); !o.Panicked {
+							report("Template.String("+page+")", o.Out, o.Err)
+						}
+						want = saved
 					}
 				}})
 			all := allAtoms()
